@@ -15,7 +15,7 @@ PID = "C10"
 LEVEL = "exploration"
 RULE = ("enumerated: pair counts 1..4 x ALL Bell-state tuples (quick: all tuples for 1-2 pairs, 60 random tuples for 3-4) x "
         "API variant {recv_keep, recv_keep+post routine, recv_keep sequential+post routine, recv_keep_with_info, recv_rsp, "
-        "recv_rsp_with_info, create_keep, create_keep sequential} x {generic, NV} hardware x 0..2 other live qubits in "
+        "recv_rsp_with_info, create_keep, create_keep_with_info, create_keep sequential} x {generic, NV} hardware x 0..2 other live qubits in "
         "known asymmetric states (shifting the virtual IDs) x expect_phi_plus on/off; measure-directly: 6 named bases x 4 "
         "Bell states x both raw outcomes, exact joint distribution computed with R-QUANTUM. Oracle: fidelity of each kept "
         "qubit with its modelled remote partner >= 1-1e-9 w.r.t. Phi+ (or the delivered Bell state when nothing may be "
@@ -36,7 +36,7 @@ KF_RSP_RETRY = "epr-recv-rsp-retry:no-clean-up-between-attempts"
 
 KF_RECV_BASIS = "recv-measure:post-processing-assumes-Z-basis"
 VARIANTS = ["recv_keep", "recv_keep_post", "recv_keep_seq", "recv_keep_with_info", "recv_rsp", "recv_rsp_with_info",
-            "create_keep", "create_keep_seq", "recv_keep_retry", "recv_keep_seq_retry", "create_keep_retry", "recv_rsp_retry", "recv_keep_seq1", "create_keep_seq1"]
+            "create_keep", "create_keep_seq", "recv_keep_retry", "recv_keep_seq_retry", "create_keep_retry", "recv_rsp_retry", "recv_keep_seq1", "create_keep_seq1", "create_keep_with_info"]
 OTHER_STATES = [np.array([math.cos(0.4), math.sin(0.4) * np.exp(0.7j)]), np.array([math.cos(1.1), math.sin(1.1) * np.exp(-1.3j)])]
 PAULI_FOR_BELL = {0: [], 1: ["x"], 2: ["x", "z"], 3: ["z"]}   # correction turning |b> into Phi+ (applied to one half)
 
@@ -91,6 +91,16 @@ def cases(ctx):
                                 if ctx.mine(k) and (not ctx.quick or n == 1 or take):
                                     yield {"kind": "keep", "variant": var, "bells": list(bells), "hardware": hw,
                                            "others": others, "expect_phi_plus": expect, "tight": True}
+    # other live qubits that leave a HOLE in the virtual IDs: qubits on IDs 0..holes-1 were freed again, a live one sits above them
+    for n in (2, 3):
+        for var in ("recv_keep", "create_keep", "recv_keep_with_info", "recv_rsp"):
+            for hw in ("generic", "nv", "nvc"):
+                for holes in (1, 2):
+                    bells = [rng.randrange(4) for _ in range(n)]
+                    k += 1
+                    if ctx.mine(k):
+                        yield {"kind": "keep", "variant": var, "bells": bells, "hardware": hw, "others": 1, "holes": holes,
+                               "expect_phi_plus": True}
     for basis in ("X", "Y", "Z", "MX", "MY", "MZ"):
         for b in range(4):
             for role in ("recv", "create"):
@@ -137,6 +147,8 @@ def _request(es, var, n, expect, post):
         return es.create_keep(n, min_fidelity_all_at_end=80, max_tries=3), None
     if var == "create_keep":
         return es.create_keep(n), None
+    if var == "create_keep_with_info":
+        return es.create_keep_with_info(n)
     if var == "create_keep_seq":
         return es.create_keep(n, post_routine=post, sequential=True), None
     raise ValueError(var)
@@ -152,7 +164,8 @@ def _keep(ctx, case):
     sequential = "_seq" in var and not var.endswith("_seq1")
     retry = var.endswith("_retry")
     nontrivial = any(b != 0 for b in bells)
-    budget = n + others + 1 if not sequential else others + 2
+    holes = case.get("holes", 0)
+    budget = (n + others + 1 if not sequential else others + 2) + holes
     es = EPRSocket("bob")
     if retry:
         # first attempt is reported too slow (and delivers the *rotated* Bell states), the second one is in time
@@ -181,10 +194,16 @@ def _keep(ctx, case):
     try:
         with pipe.conn as conn:
             spectators = []
+            freed = [Qubit(conn) for _ in range(holes)]
             for j in range(others):
                 q = Qubit(conn)
                 spectators.append(q)
             conn.flush()
+            for q in freed:
+                q.free()
+            if freed:
+                conn.flush()
+                ctx.count("requests_with_a_hole_below_a_live_qubit")
             for j, q in enumerate(spectators):
                 pipe.set_state([q], OTHER_STATES[j])
             spect_labels = [pipe.label_of(q) for q in spectators]
